@@ -102,7 +102,7 @@ fn verif_native_string_mutators() {
                     let mc: Vec<char> = m.chars().collect();
                     let diff: Vec<usize> = (0..mc.len().min(vc.len())).filter(|&i| mc[i] != vc[i]).collect();
                     let ok = mc.len() == vc.len() && diff.len() <= 1
-                        && diff.iter().all(|&i| (mc[i] as u32) >= 0x21 && (mc[i] as u32) <= 0x7e);
+                        && diff.iter().all(|&i| (mc[i] as u32) >= 0x20 && (mc[i] as u32) <= 0x7e);
                     if !ok { bad += 1; report("C16", "character.mutate_string: length/positions/printable", &v, &ent, rate, &m); }
                 }
             });
